@@ -23,10 +23,15 @@ func FromRawDN(dn []byte) string {
 func FromRDNSequence(rdns pkix.RDNSequence) string {
 	var ss []string
 	for i := len(rdns) - 1; i >= 0; i-- {
+		// the attributes of one (multi-valued) RDN are joined with '+', RDNs with ',' (RFC 4514 section 2.2)
+		var as []string
 		for _, atv := range rdns[i] {
 			name := x500AttrTypeFromOID(atv.Type)
 			value := escapeRDNAttrValue(fmt.Sprintf("%s", atv.Value))
-			ss = append(ss, fmt.Sprintf("%s=%s", name, value))
+			as = append(as, fmt.Sprintf("%s=%s", name, value))
+		}
+		if len(as) > 0 {
+			ss = append(ss, strings.Join(as, "+"))
 		}
 	}
 	return strings.Join(ss, ",")
